@@ -171,6 +171,10 @@ func (s *Schema) Validate(document jschema.Document) (err error) {
 		return err
 	}
 
+	if s.inner.RootNode() == nil {
+		return errors.NewDocumentError(s.file, errors.ErrEmptySchema)
+	}
+
 	if _, ok := document.(*json.Document); !ok {
 		return fmt.Errorf("support only JSON documents, but got %T", document)
 	}
